@@ -309,7 +309,7 @@ Proof. apply map_length. Qed.
 Theorem step_within cfg st o st' :
   0 <= sub_limit cfg -> AllWithin cfg st -> step cfg st o = SOkS st' -> AllWithin cfg st'.
 Proof.
-  intros Hl HA. destruct o as [c|c m lim rows prep cq add auth|c|c|c sid|k|c]; simpl.
+  intros Hl HA. destruct o as [c|c m lim rows prep cq add auth|c|c|c sid|k|c|c m rows prep cq]; simpl.
   - destruct (get_conn c (r_conns st)); [discriminate|]. intros E; inversion E; subst.
     unfold AllWithin. simpl. apply AllWithin_set; [assumption|]. right. simpl. lia.
   - match goal with |- context [if ?b then drain_pending st else st] =>
@@ -342,6 +342,11 @@ Proof.
   - destruct (get_conn c (r_conns st)) as [x|]; [|discriminate]. destruct (c_open x); [|discriminate].
     intros E; inversion E; subst. unfold AllWithin, drop_conn. simpl.
     apply AllWithin_set; [assumption|]. right. simpl. lia.
+  - destruct (get_conn c (r_conns st)) as [x|] eqn:Ex; [|discriminate]. destruct (c_open x); [|discriminate].
+    destruct (handle_msg cfg st c x m false rows prep cq (AddCrash []) AuthOk) as [[st1 x1] d] eqn:Eh.
+    destruct (handle_msg_within _ _ _ _ _ _ _ _ _ _ _ _ _ _ Hl HA (HA _ _ Ex) Eh) as [HA1 Hx1].
+    destruct d; intros E; inversion E; subst; unfold AllWithin, drop_conn; simpl;
+      (apply AllWithin_set; [assumption|]; right; simpl; lia).
 Qed.
 
 Theorem limit_invariant cfg ops : forall st st',
